@@ -122,7 +122,7 @@ CHECKS["C18"] = {
             "Plus lockpaths: a model extracted mechanically from the sources at check time - every control-flow path (each if/switch/select arm, loops taken 0 and 1 times with a state-preservation check on the back edge, "
             "every return / break / continue / panic) of every function and function literal that calls Lock/RLock on a sync.Mutex/RWMutex, abstract state = multiset of held lock expressions + deferred unlocks; every exit "
             "must have held minus deferred = empty; also re-lock of a held mutex and unlock of an unheld one. Data races themselves are NOT decided by this family (see DESIGN section 7).",
-    "parts": [A("sched", "./checks/c18", "TestC18Sched", overlay=True, gomaxprocs=1, budget={"quick": 120, "thorough": 2400}),
+    "parts": [A("sched", "./checks/c18", "TestC18Sched", overlay=True, gomaxprocs=1, budget={"quick": 200, "thorough": 2400}),
               A("client-sched", "./checks/bsem", "TestC18Client", overlay=True, gomaxprocs=1, budget={"quick": 120, "thorough": 2400}),
               A("lockpaths", "./checks/c18", "TestC18LockPaths", nshards=1, budget={"quick": 60, "thorough": 60}),
               A("race", "./checks/c18", "TestC18Race", race=True, sampling=True, budget={"quick": 90, "thorough": 900})],
